@@ -18,7 +18,9 @@ CONSTANTS Bytes,        \* byte values used for file contents by the model check
           Perms,        \* permission words
           Ids,          \* uids / gids
           TimeHi,       \* high limbs of the timestamps the model checker uses (see Times)
-          ZeroOnOpen    \* TRUE: the size branch opens the file with a truncating mode ("w+"), as 4.0.0 does
+          ZeroOnOpen,   \* TRUE: the size branch opens the file with a truncating mode ("w+"), as 4.0.0 does
+          Links,        \* what the served name may be: subset of {"none", "link", "dangling"}
+          NoFollowOwnTime  \* TRUE: chown / utime are applied without following a symbolic link (seeded defect)
 
 \* timestamps are pairs <<hi, lo>> of 16-bit limbs, so 32-bit times survive TLC's 32-bit integers
 Times == {<<h, 7>> : h \in TimeHi}
@@ -29,13 +31,20 @@ Min(a, b)    == IF a < b THEN a ELSE b
 Resize(c, n) == IF n <= Len(c) THEN SubSeq(c, 1, n) ELSE c \o Zeros(n - Len(c))
 Le(a, b)     == a[1] < b[1] \/ (a[1] = b[1] /\ a[2] <= b[2])      \* order on limb pairs
 
-\* file: [content, perm, uid, gid, atime, mtime]
+\* file: [content, perm, uid, gid, atime, mtime, link, luid, lgid, lmtime, failed]
 \* attr: [has_perm, perm, has_own, uid, gid, has_time, atime, mtime, time_now, now_lo, now_hi, has_size, size]
 \*   (time_now: the client was asked for "the current time" and chose it itself between now_lo and now_hi)
 
 (* ---- the meaning: which clauses of the statement does (before, attr, after) break? ---- *)
+\* The served name may be a symbolic link (file.link = "link": to the file described by the other fields;
+\* "dangling": to nothing).  os.chmod / os.chown / os.utime / os.truncate follow links: the file changes, the link's
+\* own owner and mtime (luid, lgid, lmtime - what lstat shows) do not, and on a dangling link the call fails.
+\* (The link's own atime is not compared: the kernel may move it whenever the link is followed.)
+\* after.failed: the request was refused / the helper raised.
 Keep(before, a, after) == Min(Min(a.size, Len(before.content)), Len(after.content))
-Bad(before, a, after) ==
+AnyField(a) == a.has_perm \/ a.has_own \/ a.has_time \/ a.has_size
+LinkSame(before, after) == after.luid = before.luid /\ after.lgid = before.lgid /\ after.lmtime = before.lmtime
+FileBad(before, a, after) ==
      (IF a.has_size /\ Len(after.content) # a.size THEN {"P_size"} ELSE {})
   \cup (IF a.has_size /\ ( Len(after.content) < Min(a.size, Len(before.content))
                          \/ SubSeq(after.content, 1, Keep(before, a, after)) # SubSeq(before.content, 1, Keep(before, a, after)))
@@ -55,6 +64,13 @@ Bad(before, a, after) ==
   \* a size change stamps mtime with the clock (os.truncate does too): mtime is only demanded without one
   \cup (IF ~a.has_time /\ ~a.has_size /\ (after.atime # before.atime \/ after.mtime # before.mtime)
         THEN {"P_times_untouched"} ELSE {})
+Bad(before, a, after) ==
+  IF before.link = "dangling"
+  THEN (IF AnyField(a) /\ ~after.failed THEN {"P_dangling_link_must_fail"} ELSE {})
+       \cup (IF ~LinkSame(before, after) THEN {"P_link_itself_untouched"} ELSE {})
+  ELSE FileBad(before, a, after)
+       \cup (IF after.failed THEN {"P_call_failed"} ELSE {})
+       \cup (IF before.link = "link" /\ ~LinkSame(before, after) THEN {"P_link_itself_untouched"} ELSE {})
 
 (* ---- the helper, statement by statement ---- *)
 VARIABLES file0, attr, file, pc
@@ -71,38 +87,58 @@ Normal(a) == /\ (~a.has_perm => a.perm = First(Perms))
              /\ (~a.has_time => a.atime = First(Times) /\ a.mtime = First(Times))
              /\ (~a.has_size => a.size = 0)
 
-Init == /\ file0 \in [content : SeqsUpTo(MaxLen), perm : Perms, uid : {First(Ids)}, gid : {First(Ids)},
-                      atime : {<<9, 9>>}, mtime : {<<9, 8>>}]
+PlainFile(c, p) == [content |-> c, perm |-> p, uid |-> First(Ids), gid |-> First(Ids), atime |-> <<9, 9>>, mtime |-> <<9, 8>>,
+                    link |-> "none", luid |-> 0, lgid |-> 0, lmtime |-> <<0, 0>>, failed |-> FALSE]
+\* plain files of every content; through a link (own owner 7:7, own mtime <<5, 5>>) one content is enough
+Init == /\ file0 \in {PlainFile(c, p) : c \in SeqsUpTo(MaxLen), p \in Perms}
+                    \cup {[PlainFile(<<1, 2>>, p) EXCEPT !.link = l, !.luid = 7, !.lgid = 7, !.lmtime = <<5, 5>>] :
+                           p \in Perms, l \in Links \ {"none"}}
         /\ attr \in {a \in Attrs : Normal(a)}
         /\ file = file0 /\ pc = "chmod"
 
-Chmod == /\ pc = "chmod" /\ pc' = "chown"
-         /\ file' = IF attr.has_perm THEN [file EXCEPT !.perm = attr.perm] ELSE file
-Chown == /\ pc = "chown" /\ pc' = "utime"
-         /\ file' = IF attr.has_own THEN [file EXCEPT !.uid = attr.uid, !.gid = attr.gid] ELSE file
-Utime == /\ pc = "utime" /\ pc' = "open"
-         /\ file' = IF attr.has_time THEN [file EXCEPT !.atime = attr.atime, !.mtime = attr.mtime] ELSE file
+\* a statement that follows the link raises on a dangling one: the helper stops there
+Fails == file.link = "dangling"
+Raise == file' = [file EXCEPT !.failed = TRUE] /\ pc' = "done"
+\* NoFollowOwnTime (seeded defect): chown / utime act on the served name itself
+OnLink == NoFollowOwnTime /\ file.link # "none"
+Chmod == /\ pc = "chmod"
+         /\ IF attr.has_perm /\ Fails THEN Raise
+            ELSE /\ pc' = "chown"
+                 /\ file' = IF attr.has_perm THEN [file EXCEPT !.perm = attr.perm] ELSE file
+Chown == /\ pc = "chown"
+         /\ IF attr.has_own /\ Fails /\ ~OnLink THEN Raise
+            ELSE /\ pc' = "utime"
+                 /\ file' = IF ~attr.has_own THEN file
+                            ELSE IF OnLink THEN [file EXCEPT !.luid = attr.uid, !.lgid = attr.gid]
+                            ELSE [file EXCEPT !.uid = attr.uid, !.gid = attr.gid]
+Utime == /\ pc = "utime"
+         /\ IF attr.has_time /\ Fails /\ ~OnLink THEN Raise
+            ELSE /\ pc' = "open"
+                 /\ file' = IF ~attr.has_time THEN file
+                            ELSE IF OnLink THEN [file EXCEPT !.lmtime = attr.mtime]
+                            ELSE [file EXCEPT !.atime = attr.atime, !.mtime = attr.mtime]
 OpenForSize == /\ pc = "open"
-               /\ IF attr.has_size
-                  THEN /\ pc' = "truncate"
+               /\ IF ~attr.has_size THEN pc' = "done" /\ file' = file
+                  ELSE IF Fails THEN Raise
+                  ELSE /\ pc' = "truncate"
                        /\ file' = IF ZeroOnOpen THEN [file EXCEPT !.content = <<>>, !.mtime = Now] ELSE file
-                  ELSE pc' = "done" /\ file' = file
 Truncate == /\ pc = "truncate" /\ pc' = "done"
             /\ file' = [file EXCEPT !.content = Resize(@, attr.size), !.mtime = Now]
 Next == (Chmod \/ Chown \/ Utime \/ OpenForSize \/ Truncate) /\ UNCHANGED <<file0, attr>>
 Spec == Init /\ [][Next]_vars
 
 \* the five statements as one function (what a complete run of the helper leaves behind)
+\* for a plain file or a link to one, links followed
 HelperResult(f, a) ==
-  [content |-> IF a.has_size THEN Resize(IF ZeroOnOpen THEN <<>> ELSE f.content, a.size) ELSE f.content,
-   perm  |-> IF a.has_perm THEN a.perm ELSE f.perm,
-   uid   |-> IF a.has_own THEN a.uid ELSE f.uid,
-   gid   |-> IF a.has_own THEN a.gid ELSE f.gid,
-   atime |-> IF a.has_time THEN a.atime ELSE f.atime,
-   mtime |-> IF a.has_size THEN Now ELSE IF a.has_time THEN a.mtime ELSE f.mtime]
+  [f EXCEPT !.content = IF a.has_size THEN Resize(IF ZeroOnOpen THEN <<>> ELSE f.content, a.size) ELSE f.content,
+            !.perm  = IF a.has_perm THEN a.perm ELSE f.perm,
+            !.uid   = IF a.has_own THEN a.uid ELSE f.uid,
+            !.gid   = IF a.has_own THEN a.gid ELSE f.gid,
+            !.atime = IF a.has_time THEN a.atime ELSE f.atime,
+            !.mtime = IF a.has_size THEN Now ELSE IF a.has_time THEN a.mtime ELSE f.mtime]
 
 (* ---- properties ---- *)
-StepsCompose == pc = "done" => file = HelperResult(file0, attr)      \* used by SetAttr_Session
+StepsCompose == (pc = "done" /\ file0.link # "dangling" /\ ~NoFollowOwnTime) => file = HelperResult(file0, attr)   \* used by SetAttr_Session
 Verdict           == IF pc = "done" THEN Bad(file0, attr, file) ELSE {}
 LocalMeaning      == Verdict = {}                                   \* the statement of C31 on the model
 KeepsLeadingBytes == "P_keeps_leading_bytes" \notin Verdict         \* its "in particular" clause
